@@ -10,7 +10,7 @@ from vlib import core
 
 TSAN = ["-O1", "-g", "-fsanitize=thread", "-pthread"]
 VSBX_ADDR = ["-DVSBX_BASE0_ADDR=0x7e9000000000ull", "-DVSBX_STRIDE_BYTES=0x100000000ull"]
-OPS = "cdmrpgufia"
+OPS = "cdmrpgufial"
 
 
 def build(backend):
@@ -40,8 +40,10 @@ def gen_prog(rng, length):
             op = "u"
         elif r < 0.80:
             op = "f"
-        elif r < 0.88:
+        elif r < 0.86:
             op = "a"
+        elif r < 0.91:
+            op = "l"
         else:
             op = "i"
         prog.append(op + str(i))
